@@ -52,19 +52,29 @@ func VerifC15Failures() {
 			{PutRequest: &types.PutRequest{Item: vItem{"p": vS("n"), "v": vS(x)}}},
 			{DeleteRequest: &types.DeleteRequest{Key: vItem{"p": vS("k")}}},
 		}
+		// the failure comes first: a request that would also be refused for its own sake (missing table,
+		// unused placeholder) still gets the configured error
+		tbl := tbl
+		var names map[string]string
+		switch nd.Choice("request-flavour", 3) {
+		case 1:
+			tbl = aws.String("nosuch")
+		case 2:
+			names = map[string]string{"#unused": "v"}
+		}
 		switch nd.Choice("op", 9) {
 		case 0:
-			_, err = c.PutItem(vCtx, &dynamodb.PutItemInput{TableName: tbl, Item: vItem{"p": vS("k"), "v": vS(x)}})
+			_, err = c.PutItem(vCtx, &dynamodb.PutItemInput{TableName: tbl, Item: vItem{"p": vS("k"), "v": vS(x)}, ExpressionAttributeNames: names})
 		case 1:
-			_, err = c.GetItem(vCtx, &dynamodb.GetItemInput{TableName: tbl, Key: vItem{"p": vS("k")}})
+			_, err = c.GetItem(vCtx, &dynamodb.GetItemInput{TableName: tbl, Key: vItem{"p": vS("k")}, ExpressionAttributeNames: names})
 		case 2:
-			_, err = c.UpdateItem(vCtx, &dynamodb.UpdateItemInput{TableName: tbl, Key: vItem{"p": vS("k")}, UpdateExpression: aws.String("SET v = :x"), ExpressionAttributeValues: vItem{":x": vS(x)}})
+			_, err = c.UpdateItem(vCtx, &dynamodb.UpdateItemInput{TableName: tbl, Key: vItem{"p": vS("k")}, UpdateExpression: aws.String("SET v = :x"), ExpressionAttributeValues: vItem{":x": vS(x)}, ExpressionAttributeNames: names})
 		case 3:
-			_, err = c.DeleteItem(vCtx, &dynamodb.DeleteItemInput{TableName: tbl, Key: vItem{"p": vS("k")}})
+			_, err = c.DeleteItem(vCtx, &dynamodb.DeleteItemInput{TableName: tbl, Key: vItem{"p": vS("k")}, ExpressionAttributeNames: names})
 		case 4:
-			_, err = c.Query(vCtx, &dynamodb.QueryInput{TableName: tbl, KeyConditionExpression: aws.String("p = :p"), ExpressionAttributeValues: vItem{":p": vS("k")}})
+			_, err = c.Query(vCtx, &dynamodb.QueryInput{TableName: tbl, KeyConditionExpression: aws.String("p = :p"), ExpressionAttributeValues: vItem{":p": vS("k")}, ExpressionAttributeNames: names})
 		case 5:
-			_, err = c.Scan(vCtx, &dynamodb.ScanInput{TableName: tbl})
+			_, err = c.Scan(vCtx, &dynamodb.ScanInput{TableName: tbl, ExpressionAttributeNames: names})
 		case 6:
 			_, err = c.BatchGetItem(vCtx, &dynamodb.BatchGetItemInput{RequestItems: map[string]types.KeysAndAttributes{vTbl: {Keys: []vItem{{"p": vS("k")}}}}})
 		case 7:
